@@ -246,58 +246,35 @@ theorem lookup_found {f : DbFile} {m : Models} {x : TextId} {v : Ver} {lh : Int}
     · have := List.find?_some hfind; simp [matches_] at this; exact this.1
     · have := List.find?_some hfind; simp [matches_] at this; exact this.2
 
-/-- the part of `parseCached` after the initialisation block, from a state whose `models` table can be queried -/
-def afterInit (cfg : Cfg) (pf : Ver → TextId → Option TreeId) (s : St) (x : TextId) (upd : Bool) : St × Res :=
-  match txLookup x s.ver s.file with
-  | .error e => (s, .raised e)
-  | .ok none => finish pf s x none
-  | .ok (some (lastHit, blob)) =>
-    let (ty, s) := s.read
-    let touched : Except (St × Err) St :=
-      if upd || decide (lastHit < ty - day) then
-        let (tu, s) := s.read
-        match txTouch x s.ver tu s.file with
-        | .error e => .error (s, e)
-        | .ok f => .ok { s with file := f }
-      else .ok s
-    match touched with
-    | .error (s, e) => (s, .raised e)
-    | .ok s =>
-      match blob with
-      | .good t => finish pf s x t
-      | .bad e => if cfg.isCaught e then finish pf s x none else (s, .raised (.unpickle e))
-
-theorem parseCached_eq (cfg : Cfg) (s : St) (x : TextId) (days : Int) (upd : Bool) :
-    parseCached cfg pf s x days upd =
-      match (if s.init then .ok s else initBlock s days) with
-      | .error (s, e) => (s, .raised e)
-      | .ok s => afterInit cfg pf s x upd := by
-  unfold parseCached afterInit
-  rfl
-
 /-- the state after the optional `UPDATE … last_hit` -/
 theorem touched_spec (s : St) (x : TextId) (upd : Bool) (lh : Int) {m : Models} (hq : s.file.queryable = some m) :
-    ∃ s1 : St, (if upd || decide (lh < s.read.1 - day) then
-        (match txTouch x s.read.2.read.2.ver s.read.2.read.1 s.read.2.read.2.file with
-          | .error e => (.error (s.read.2.read.2, e) : Except (St × Err) St)
-          | .ok f => .ok { s.read.2.read.2 with file := f })
-        else .ok s.read.2) = .ok s1 ∧
+    ∃ s1 : St, touchStep s x upd lh = .ok s1 ∧
       s1.ver = s.ver ∧ s1.init = s.init ∧ s1.file.queryable.isSome = true ∧
-      (∀ pf, FileInv pf s.file → FileInv pf s1.file) := by
+      (∀ pf, FileInv pf s.file → FileInv pf s1.file) ∧ (NoNone s.file → NoNone s1.file) := by
+  unfold touchStep
+  simp only []
   by_cases hc : (upd || decide (lh < s.read.1 - day)) = true
   · simp only [hc, if_true]
     have hq' : s.read.2.read.2.file.queryable = some m := hq
     cases ht : txTouch x s.read.2.read.2.ver s.read.2.read.1 s.read.2.read.2.file with
     | error e => simp [txTouch, hq'] at ht
     | ok f =>
-      refine ⟨_, rfl, rfl, rfl, ?_, ?_⟩
+      refine ⟨_, rfl, rfl, rfl, ?_, ?_, ?_⟩
       · simp [txTouch, hq'] at ht
         subst ht
         simp [queryable_setRows _ hq']
       · intro pf h
         exact fileInv_touch (f := s.file) h ht
+      · intro h
+        simp [txTouch, hq'] at ht
+        subst ht
+        intro r hr
+        rw [rowsOf_setRows _ hq'] at hr
+        obtain ⟨r0, hr0, rfl⟩ := List.mem_map.mp hr
+        have h0 := h r0 (by rw [queryable_rows hq]; exact hr0)
+        split <;> simpa using h0
   · simp only [hc]
-    exact ⟨_, rfl, rfl, rfl, by simp [St.read, hq], fun _ h => h⟩
+    exact ⟨_, rfl, rfl, rfl, by simp [St.read, hq], fun _ h => h, fun h => h⟩
 
 theorem afterInit_spec {cfg : Cfg} {s : St} {x : TextId} {upd : Bool} (hc : CaughtAll cfg) (h : RowInv pf s)
     (hq : s.file.queryable.isSome = true) :
@@ -313,7 +290,7 @@ theorem afterInit_spec {cfg : Cfg} {s : St} {x : TextId} {upd : Bool} (hc : Caug
     | some lb =>
       obtain ⟨lh, blob⟩ := lb
       obtain ⟨r, hr, hkey, hver, hblob⟩ := lookup_found hm hl
-      obtain ⟨s1, hs1, hv1, hi1, hq1, hinv1⟩ := touched_spec s x upd lh hm
+      obtain ⟨s1, hs1, hv1, hi1, hq1, hinv1, _⟩ := touched_spec s x upd lh hm
       simp only []
       rw [hs1]
       simp only []
@@ -351,7 +328,7 @@ theorem afterInit_inv {cfg : Cfg} {s : St} {x : TextId} {upd : Bool} (h : RowInv
         | none => simp [txLookup, hq] at hl
         | some m => exact ⟨m, rfl⟩
       obtain ⟨m, hm⟩ := hm
-      obtain ⟨s1, hs1, _, _, _, hinv1⟩ := touched_spec s x upd lh hm
+      obtain ⟨s1, hs1, _, _, _, hinv1, _⟩ := touched_spec s x upd lh hm
       simp only []
       rw [hs1]
       simp only []
@@ -365,30 +342,333 @@ theorem afterInit_inv {cfg : Cfg} {s : St} {x : TextId} {upd : Bool} (h : RowInv
 
 theorem parseCached_inv {cfg : Cfg} {s : St} {x : TextId} {days : Int} {upd : Bool} (h : RowInv pf s) :
     RowInv pf (parseCached cfg pf s x days upd).1 := by
-  rw [parseCached_eq]
+  unfold parseCached
   by_cases hi : s.init = true
   · simp only [hi, if_true]
-    exact afterInit_inv h
+    by_cases hr : (cfg.recover && true && s.file.queryable.isNone) = true
+    · simp only [hr, if_true]
+      obtain ⟨s', he, _⟩ := initBlock_spec { s with init := false } days
+      simp only [he]
+      exact afterInit_inv (initBlock_inv (s := { s with init := false }) h he)
+    · simp only [hr]
+      exact afterInit_inv h
   · have hif : s.init = false := by simpa using hi
     obtain ⟨s', he, _⟩ := initBlock_spec s days
-    simp only [hif, he, Bool.false_eq_true, if_false]
+    simp only [hif, he, Bool.false_eq_true, if_false, Bool.and_false, Bool.false_and]
     exact afterInit_inv (initBlock_inv h he)
 
+/-- what a parse through the cache does from a synced state (any `cfg`) -/
 theorem parseCached_spec {cfg : Cfg} {s : St} {x : TextId} {days : Int} {upd : Bool} (hc : CaughtAll cfg)
     (h : RowInv pf s) (hs : Synced s) :
     (parseCached cfg pf s x days upd).2 = .value (pf s.ver x) ∧
     (parseCached cfg pf s x days upd).1.init = true ∧
     (parseCached cfg pf s x days upd).1.file.queryable.isSome = true := by
-  rw [parseCached_eq]
+  unfold parseCached
   by_cases hi : s.init = true
-  · simp only [hi, if_true]
-    obtain ⟨h1, _, h3, h4⟩ := afterInit_spec (x := x) (upd := upd) hc h (hs hi)
+  · have hq := hs hi
+    have hn : s.file.queryable.isNone = false := by
+      cases hqq : s.file.queryable <;> simp_all
+    simp only [hi, if_true, hn, Bool.and_false, Bool.false_eq_true, if_false]
+    obtain ⟨h1, _, h3, h4⟩ := afterInit_spec (x := x) (upd := upd) hc h hq
     exact ⟨h1, by rw [h4, hi], h3⟩
   · have hif : s.init = false := by simpa using hi
     obtain ⟨s', he, hinit, hver, _, rows, c, p, hfile, _⟩ := initBlock_spec s days
-    simp only [hif, he, Bool.false_eq_true, if_false]
+    simp only [hif, he, Bool.false_eq_true, if_false, Bool.and_false, Bool.false_and]
     have hq : s'.file.queryable.isSome = true := by simp [hfile, DbFile.queryable]
     obtain ⟨h1, _, h3, h4⟩ := afterInit_spec (x := x) (upd := upd) hc (initBlock_inv h he) hq
     exact ⟨by rw [h1, hver], by rw [h4, hinit], h3⟩
+
+/-- with the recovery of fix C01-1 the same holds from *every* state that satisfies the row invariant -/
+theorem parseCached_spec_recover {cfg : Cfg} {s : St} {x : TextId} {days : Int} {upd : Bool} (hc : CaughtAll cfg)
+    (hr : cfg.recover = true) (h : RowInv pf s) :
+    (parseCached cfg pf s x days upd).2 = .value (pf s.ver x) ∧
+    (parseCached cfg pf s x days upd).1.init = true ∧
+    (parseCached cfg pf s x days upd).1.file.queryable.isSome = true := by
+  by_cases hs : Synced s
+  · exact parseCached_spec hc h hs
+  · have hi : s.init = true := by
+      cases hii : s.init with
+      | true => rfl
+      | false => exact absurd (fun hh => by rw [hii] at hh; cases hh) hs
+    have hn : s.file.queryable.isNone = true := by
+      cases hqq : s.file.queryable with
+      | none => rfl
+      | some m => exact absurd (fun _ => by simp [hqq]) hs
+    unfold parseCached
+    simp only [hi, if_true, hr, hn, Bool.and_self]
+    obtain ⟨s', he, hinit, hver, _, rows, c, p, hfile, _⟩ := initBlock_spec { s with init := false } days
+    simp only [he]
+    have hq : s'.file.queryable.isSome = true := by simp [hfile, DbFile.queryable]
+    obtain ⟨h1, _, h3, h4⟩ := afterInit_spec (x := x) (upd := upd) hc
+      (initBlock_inv (s := { s with init := false }) h he) hq
+    exact ⟨by rw [h1, hver], by rw [h4, hinit], h3⟩
+
+/-! ### operations of a history -/
+
+variable {cfg : Cfg}
+
+/-- Operations the statement quantifies over: an entry is damaged into something that does not unpickle,
+    or unpickles to `None` — not into a *different well-formed tree* (outside "entries that no longer
+    unpickle"; nothing could detect that). -/
+def Admissible (pf : Ver → TextId → Option TreeId) : Op → Prop
+  | .corruptEntry x v (.good (some t)) => pf v x = some t
+  | _ => True
+
+instance (pf : Ver → TextId → Option TreeId) (op : Op) : Decidable (Admissible pf op) := by
+  unfold Admissible; split <;> infer_instance
+
+/-- deleting / overwriting the file, dropping the `models` table or replacing it by one with other columns -/
+def damaging : Op → Bool
+  | .corruptFile _ => true
+  | .corruptLayout .models .drop => true
+  | .corruptLayout .models .alien => true
+  | _ => false
+
+theorem rowInv_step (s : St) (op : Op) (hadm : Admissible pf op) (h : RowInv pf s) : RowInv pf (step cfg pf s op).1 := by
+  cases op with
+  | parse x days upd bypass =>
+    simp only [step]
+    split
+    · exact h
+    · exact parseCached_inv h
+  | reload => exact h
+  | setVersion v d => exact h
+  | tick us => exact h
+  | setInc us => exact h
+  | corruptEntry x v b =>
+    simp only [step, RowInv, damageEntry]
+    cases hq : s.file.queryable with
+    | none => exact h
+    | some m =>
+      intro r hr
+      rw [rowsOf_setRows _ hq] at hr
+      obtain ⟨r0, hr0, rfl⟩ := List.mem_map.mp hr
+      have h0 := h r0 (by rw [queryable_rows hq]; exact hr0)
+      by_cases hm : matches_ x v r0 = true
+      · simp only [hm, if_true]
+        intro t ht
+        simp only at ht
+        subst ht
+        simp [matches_] at hm
+        simpa [Admissible, hm.1, hm.2] using hadm
+      · simpa [hm] using h0
+  | corruptLayout t how =>
+    simp only [step, RowInv]
+    cases hf : s.file with
+    | garbage => simp [damageLayout, FileInv, rowsOf]
+    | db m mt =>
+      have hrows : ∀ r ∈ rowsOf (damageLayout t how (.db m mt)), r ∈ rowsOf (.db m mt) := by
+        cases t <;> cases how <;> cases m <;> simp [damageLayout, rowsOf]
+        all_goals (try (rename_i mm; intro r hr; split at hr <;> simp_all))
+      intro r hr
+      exact h r (by rw [hf]; exact hrows r hr)
+  | corruptFile how => cases how <;> simp [step, RowInv, damageFile, FileInv, rowsOf]
+  | foreignWrite x v d =>
+    simp only [step, RowInv, foreignWrite]
+    cases hpf : pf v x with
+    | none => exact h
+    | some t =>
+      simp only []
+      cases hi : txInsert x v t (s.now - d * day) s.file with
+      | error e => exact h
+      | ok f => exact fileInv_insert h hpf hi
+
+theorem synced_step (hc : CaughtAll cfg) (s : St) (op : Op) (h : RowInv pf s) (hs : Synced s)
+    (hd : damaging op = true → s.init = false) : Synced (step cfg pf s op).1 := by
+  cases op with
+  | parse x days upd bypass =>
+    simp only [step]
+    split
+    · exact hs
+    · intro _; exact (parseCached_spec (x := x) (days := days) (upd := upd) hc h hs).2.2
+  | reload => intro hi; simp [step] at hi
+  | setVersion v d => exact hs
+  | tick us => exact hs
+  | setInc us => exact hs
+  | corruptEntry x v b =>
+    intro hi
+    have hq := hs hi
+    obtain ⟨m, hm⟩ := Option.isSome_iff_exists.mp hq
+    simp [step, damageEntry, hm, queryable_setRows _ hm]
+  | corruptLayout t how =>
+    intro hi
+    have hi' : s.init = true := hi
+    have hq := hs hi'
+    cases t <;> cases how <;>
+      first
+        | (have := hd rfl; rw [this] at hi'; cases hi')
+        | (cases hf : s.file with
+           | garbage => simp [hf, DbFile.queryable] at hq
+           | db m mt =>
+             cases m with
+             | none => simp [hf, DbFile.queryable] at hq
+             | some mm =>
+               simp only [hf, DbFile.queryable] at hq
+               simp [step, hf, damageLayout, DbFile.queryable]
+               try (split at hq <;> simp_all))
+  | corruptFile how =>
+    intro hi
+    have hi' : s.init = true := hi
+    have := hd rfl
+    rw [this] at hi'; cases hi'
+  | foreignWrite x v d =>
+    intro hi
+    have hq := hs hi
+    obtain ⟨m, hm⟩ := Option.isSome_iff_exists.mp hq
+    simp only [step, foreignWrite]
+    cases pf v x with
+    | none => exact hq
+    | some t => simp [txInsert, hm, queryable_setRows _ hm]
+
+
+/-- with the recovery of fix C01-1 a parse leaves the state synced whatever it was -/
+theorem synced_step_recover (hc : CaughtAll cfg) (hr : cfg.recover = true) (s : St) (op : Op) (h : RowInv pf s) :
+    ∀ x d u b, op = .parse x d u b → (b || s.dirty) = false → Synced (step cfg pf s op).1 := by
+  intro x d u b hop hb
+  subst hop
+  intro _
+  simp only [step, hb]
+  exact (parseCached_spec_recover (x := x) (days := d) (upd := u) hc hr h).2.2
+
+/-- planting a blob that unpickles to `None` is the only way such a row comes into existence -/
+def plantsNone : Op → Bool
+  | .corruptEntry _ _ (.good none) => true
+  | _ => false
+
+theorem noNone_setRows {f : DbFile} {m : Models} {rows : List Row} (hq : f.queryable = some m)
+    (h : ∀ r ∈ rows, r.blob ≠ .good none) : NoNone (f.setRows rows) := by
+  intro r hr
+  rw [rowsOf_setRows _ hq] at hr
+  exact h r hr
+
+theorem noNone_insert {f f' : DbFile} {x : TextId} {v : Ver} {tree : TreeId} {t : Int} (h : NoNone f)
+    (he : txInsert x v tree t f = .ok f') : NoNone f' := by
+  unfold txInsert at he
+  split at he
+  · cases he
+  · rename_i m hq
+    cases he
+    apply noNone_setRows hq
+    intro r hr
+    rcases List.mem_append.mp hr with hr | hr
+    · have : r ∈ m.rows := by
+        split at hr
+        · exact (List.mem_filter.mp hr).1
+        · exact hr
+      exact h r (by rw [queryable_rows hq]; exact this)
+    · simp at hr; subst hr; simp
+
+theorem noNone_finish {s : St} {x : TextId} {tree : Option TreeId} (h : NoNone s.file) :
+    NoNone (finish pf s x tree).1.file := by
+  unfold finish
+  split
+  · exact h
+  · split
+    · exact h
+    · simp only []
+      split
+      · exact h
+      · rename_i f he
+        exact noNone_insert (f := s.file) h (by simpa [St.read] using he)
+
+theorem noNone_afterInit {cfg : Cfg} {s : St} {x : TextId} {upd : Bool} (h : NoNone s.file) :
+    NoNone (afterInit cfg pf s x upd).1.file := by
+  unfold afterInit
+  cases hl : txLookup x s.ver s.file with
+  | error e => exact h
+  | ok o =>
+    cases o with
+    | none => exact noNone_finish h
+    | some lb =>
+      obtain ⟨lh, blob⟩ := lb
+      have hm : ∃ m, s.file.queryable = some m := by
+        cases hq : s.file.queryable with
+        | none => simp [txLookup, hq] at hl
+        | some m => exact ⟨m, rfl⟩
+      obtain ⟨m, hm⟩ := hm
+      obtain ⟨s1, hs1, _, _, _, _, hnn⟩ := touched_spec s x upd lh hm
+      simp only [hs1]
+      have h1 : NoNone s1.file := hnn h
+      cases blob with
+      | good t => exact noNone_finish h1
+      | bad e =>
+        by_cases hcg : cfg.isCaught e = true
+        · simp only [hcg, if_true]; exact noNone_finish h1
+        · simp only [hcg]; exact h1
+
+theorem noNone_initBlock {s s' : St} {days : Int} (h : NoNone s.file) (he : initBlock s days = .ok s') :
+    NoNone s'.file := by
+  obtain ⟨s'', he', _, _, _, rows, c, p, hfile, hsub⟩ := initBlock_spec s days
+  rw [he] at he'; cases he'
+  intro r hr
+  rw [hfile] at hr
+  exact h r (hsub r (by simpa [rowsOf] using hr))
+
+theorem noNone_step (s : St) (op : Op) (hp : plantsNone op = false) (h : NoNone s.file) :
+    NoNone (step cfg pf s op).1.file := by
+  cases op with
+  | parse x days upd bypass =>
+    simp only [step]
+    split
+    · exact h
+    · unfold parseCached
+      by_cases hi : s.init = true
+      · simp only [hi, if_true]
+        by_cases hr : (cfg.recover && true && s.file.queryable.isNone) = true
+        · simp only [hr, if_true]
+          obtain ⟨s', he, _⟩ := initBlock_spec { s with init := false } days
+          simp only [he]
+          exact noNone_afterInit (noNone_initBlock (s := { s with init := false }) h he)
+        · simp only [hr]
+          exact noNone_afterInit h
+      · have hif : s.init = false := by simpa using hi
+        obtain ⟨s', he, _⟩ := initBlock_spec s days
+        simp only [hif, he, Bool.false_eq_true, if_false, Bool.and_false, Bool.false_and]
+        exact noNone_afterInit (noNone_initBlock h he)
+  | reload => exact h
+  | setVersion v d => exact h
+  | tick us => exact h
+  | setInc us => exact h
+  | corruptEntry x v b =>
+    simp only [step, damageEntry]
+    cases hq : s.file.queryable with
+    | none => exact h
+    | some m =>
+      apply noNone_setRows hq
+      intro r hr
+      obtain ⟨r0, hr0, rfl⟩ := List.mem_map.mp hr
+      have h0 := h r0 (by rw [queryable_rows hq]; exact hr0)
+      split
+      · cases b with
+        | good t => cases t <;> simp_all [plantsNone]
+        | bad e => simp
+      · exact h0
+  | corruptLayout t how =>
+    simp only [step]
+    cases hf : s.file with
+    | garbage => simp [damageLayout, NoNone, rowsOf]
+    | db m mt =>
+      have hrows : ∀ r ∈ rowsOf (damageLayout t how (.db m mt)), r ∈ rowsOf (.db m mt) := by
+        cases t <;> cases how <;> cases m <;> simp [damageLayout, rowsOf]
+        all_goals (try (rename_i mm; intro r hr; split at hr <;> simp_all))
+      intro r hr
+      exact h r (by rw [hf]; exact hrows r hr)
+  | corruptFile how => cases how <;> simp [step, damageFile, NoNone, rowsOf]
+  | foreignWrite x v d =>
+    simp only [step, foreignWrite]
+    cases pf v x with
+    | none => exact h
+    | some t =>
+      simp only []
+      cases hi : txInsert x v t (s.now - d * day) s.file with
+      | error e => exact h
+      | ok f => exact noNone_insert h hi
+
+theorem initial_inv (t0 : Int) : RowInv pf (St.initial t0) := by
+  intro r hr; simp [St.initial, rowsOf] at hr
+
+theorem initial_synced (t0 : Int) : Synced (St.initial t0) := by
+  intro h; simp [St.initial] at h
+
 
 end PymocaVerif.ParseCache
